@@ -6,11 +6,17 @@ CONSTANTS Sizes,      \* set of << h, v >> pairs (header octets, value octets)
 LadderSeq == << 256, 192, 128 >>
 SizesQ == {<<2,0>>, <<2,1>>, <<2,2>>, <<2,3>>, <<2,4>>, <<2,127>>, <<3,128>>, <<3,255>>, <<4,256>>, <<4,257>>, <<4,1000>>,
            <<4,32763>>, <<4,32764>>, <<4,32765>>, <<4,40000>>, <<4,65535>>}
+SizesA == {<<4,300>>, <<4,40000>>}
+SizesL == {<<2,0>>, <<2,3>>, <<2,30>>, <<3,200>>, <<4,300>>}
 SizesT == SizesQ \cup {<<3,0>>, <<3,1>>, <<3,2>>, <<3,126>>, <<3,127>>, <<4,255>>, <<4,258>>, <<4,259>>, <<4,4092>>, <<4,4093>>,
            <<4,32762>>, <<4,32766>>, <<4,65531>>, <<4,65532>>, <<5,300>>}
 
-Init == /\ \E hv \in Sizes, ml \in MaxLes, cp \in Caps, ro \in RejectOvers, hn \in HdrNs, po \in Policies, sw \in SelSws, sl \in Slack :
-              cfg = [h |-> hv[1], v |-> hv[2], ef |-> hv[1] + hv[2] + sl, maxLe0 |-> ml, cap |-> cp, rejectOver |-> ro,
+\* nondeterministic return sizes only for small files (otherwise the reachable buffer lengths explode)
+PoliciesFor(v) == IF v <= 300 THEN Policies ELSE Policies \ {"any"}
+Init == /\ \E hv \in Sizes, ml \in MaxLes, cp \in Caps, ro \in RejectOvers, hn \in HdrNs, sw \in SelSws, sl \in Slack :
+          \E po \in PoliciesFor(hv[2]) :
+              /\ (sw # "9000" => (ml = 256 /\ cp = 0 /\ ro = 0 /\ hn = 4 /\ sl = 0 /\ po = "max"))   \* one configuration per select status
+              /\ cfg = [h |-> hv[1], v |-> hv[2], ef |-> hv[1] + hv[2] + sl, maxLe0 |-> ml, cap |-> cp, rejectOver |-> ro,
                      hdrN |-> hn, policy |-> po, selSw |-> sw]
         /\ pc = "select" /\ buf = 0 /\ hdrGot = 0 /\ contiguous = TRUE /\ foreign = FALSE
         /\ total = -1 /\ maxLe = cfg.maxLe0 /\ chunks = 0 /\ ladder = 0 /\ req = NoReq /\ result = "none"
